@@ -8,6 +8,7 @@
 //! interrupted one".
 #![allow(dead_code)]
 
+use crate::sem::SemEvent;
 use crate::dbchecks::{one_step, Mix};
 use crate::dbgen::*;
 use crate::dbh::*;
@@ -198,6 +199,42 @@ fn generate(rep: &mut Report, seed: u64, index: u64, steps: usize) -> Hist {
                 _ => outcomes.push(Outcome::Ok(0)),
             }
         }
+    }
+    // directed tail: calls that combine several mechanisms in ONE call, each needing the map to grow (content
+    // larger than the 2 KiB debug chunk): a replaceable and a parameterised event displacing their holders, a
+    // deletion request removing its target, and a plain large event; then a removal and a vanish
+    if !eng.aborted {
+        let big = 2100usize;
+        let mut directed: Vec<SemEvent> = vec![];
+        let a = author(0);
+        let mk = |rng: &mut Rng, kind: u16, t: u64, tags: Vec<Vec<String>>, clen: usize| SemEvent { id: rng.arr32(), pubkey: a, sig: [0x51; 64], kind, created_at: t, tags, content: "g".repeat(clen) };
+        directed.push(mk(&mut rng, 10002, 300, vec![], 40));
+        directed.push(mk(&mut rng, 10002, 301, vec![], big));
+        directed.push(mk(&mut rng, 30023, 300, vec![vec!["d".into(), "grow".into()]], 40));
+        directed.push(mk(&mut rng, 30023, 301, vec![vec!["d".into(), "grow".into()]], big));
+        let victim = mk(&mut rng, 1, 300, vec![vec!["t".into(), "victim".into()]], 40);
+        let del = mk(&mut rng, 5, 302, vec![vec!["e".into(), hex(&victim.id)]], big);
+        directed.push(victim);
+        directed.push(del);
+        directed.push(mk(&mut rng, 1, 303, vec![], big));
+        for d in directed {
+            if eng.aborted {
+                break;
+            }
+            if let Some(ev) = Ev::new(d) {
+                let offs_before = eng.offsets.len();
+                let before = eng.ops.len();
+                let _ = eng.store(&ev);
+                if eng.ops.len() > before {
+                    if eng.offsets.len() > offs_before {
+                        outcomes.push(Outcome::Ok(eng.offsets.last().unwrap().1));
+                    } else {
+                        outcomes.push(Outcome::Err(ErrClass::Other("refused".into())));
+                    }
+                }
+            }
+        }
+        rep.count("histories_with_directed_growth_tail");
     }
     let ops = eng.ops.clone();
     let events = eng.all.clone();
@@ -497,6 +534,31 @@ pub fn run(args: &Args) -> Report {
                     chosen.push(v[v.len() / 2]);
                     chosen.push(v[v.len() - 1]);
                 }
+                // ... and the first occurrence of every point within every *shape* of call: the calls are the
+                // segments between begin markers, and a call's shape is the set of point names it passes (a store
+                // that replaces, deletes, grows the map, or does several of these passes different points), so a
+                // kill "during growth inside a replacing store" is a trial of its own
+                let mut seg_start = 0usize;
+                let mut segs: Vec<(usize, usize)> = vec![];
+                for (i, n) in names.iter().enumerate() {
+                    if i > seg_start && (n == "store.begin" || n == "vanish.begin" || n == "remove_event.begin" || n == "new.begin") {
+                        segs.push((seg_start, i));
+                        seg_start = i;
+                    }
+                }
+                segs.push((seg_start, names.len()));
+                let mut seen_shape_point: std::collections::BTreeSet<(Vec<&str>, &str)> = Default::default();
+                for (a, b) in segs {
+                    let mut shape: Vec<&str> = names[a..b].iter().map(|s| s.as_str()).collect();
+                    shape.sort();
+                    shape.dedup();
+                    for i in a..b {
+                        if seen_shape_point.insert((shape.clone(), names[i].as_str())) {
+                            chosen.push(i);
+                        }
+                    }
+                }
+                rep.count_n("distinct_call_shapes_x_points", seen_shape_point.len() as u64);
                 chosen.sort();
                 chosen.dedup();
             }
@@ -598,6 +660,7 @@ pub fn run(args: &Args) -> Report {
             rep.require(&format!("killed_at:{must}"), &format!("no kill at {must}"));
         }
         rep.require("async_image:", "no asynchronous kill landed");
+        rep.require("histories_with_directed_growth_tail", "no history carried the directed tail (replacing / deleting stores that grow the map)");
     }
     rep
 }
